@@ -22,6 +22,7 @@ type c13Case struct {
 	shape string
 	match bool // element types match the declared ones: the pre-sizing site of D3 is reached
 	count int
+	seek  bool // decoded from a seekable reader (bytes.Reader)
 }
 
 func be32(n int) []byte { return []byte{byte(n >> 24), byte(n >> 16), byte(n >> 8), byte(n)} }
@@ -72,6 +73,10 @@ func c13Cases(b *built) []c13Case {
 			}
 			if msg != nil && len(msg) <= 64 {
 				out = append(out, c13Case{op: "memdecode " + tText + " " + hx(msg), shape: shape, match: match, count: n})
+				if !match && n <= 1<<24 {
+					// the same message from a seekable reader: Skip is then an unchecked Seek
+					out = append(out, c13Case{op: "memdecode " + tText + " " + hx(msg) + " seek", shape: shape + " [seekable]", match: match, count: n, seek: true})
+				}
 			}
 		}
 		if isContainer(t) {
@@ -145,13 +150,19 @@ func (c *checker) c13Run(b *built, cases []c13Case) {
 			js, _ := json.Marshal(replayCase{Mode: "C13gen", Seed: b.seed, Opts: b.opts, Ops: []opCase{{Kind: cs.shape, Impl: cs.op}}})
 			return string(js)
 		}
-		msgLen := (len(strings.Fields(cs.op)[len(strings.Fields(cs.op))-1])) / 2
+		opf := strings.Fields(cs.op)
+		hexTok := opf[len(opf)-1]
+		if hexTok == "seek" {
+			hexTok = opf[len(opf)-2]
+		}
+		msgLen := len(hexTok) / 2
 		bound := uint64(12<<20 + 64*msgLen)
-		var alloc uint64
+		var alloc, nanos uint64
 		crashed := false
 		switch {
-		case len(f) == 3 && f[0] == "ok":
+		case len(f) == 4 && f[0] == "ok":
 			alloc, _ = strconv.ParseUint(f[1], 10, 64)
+			nanos, _ = strconv.ParseUint(f[3], 10, 64)
 			c.rep.Hist("decode-result", f[2])
 		case a == "crash" || a == "timeout" || strings.HasPrefix(a, "panic"):
 			crashed = true
@@ -159,6 +170,33 @@ func (c *checker) c13Run(b *built, cases []c13Case) {
 		default:
 			c.rep.Disagree(report.Disagreement{Kind: "C13gen driver failure", Input: input(), Impl: a, Oracle: "the value driver could not run the operation"})
 			continue
+		}
+		// time: work must be linear in the input; a ≤ 64-byte message gets 10 ms
+		slow := !crashed && nanos > 10_000_000
+		if slow && alloc <= bound {
+			what := fmt.Sprintf("%s, declared count %d in a %d-byte message: %.1f ms (best of two) for one Decode", cs.shape, cs.count, msgLen, float64(nanos)/1e6)
+			switch {
+			case cs.seek && strings.Contains(cs.shape, "element-type-mismatch"):
+				c.rep.Hist("time", "D25: per-element Seek loop on a seekable reader")
+				if nanos > worstD25 {
+					worstD25 = nanos
+					for k := range c.rep.Known {
+						if c.rep.Known[k].ID == "D25" {
+							c.rep.Known = append(c.rep.Known[:k], c.rep.Known[k+1:]...)
+							break
+						}
+					}
+					c.known("D25", "generated Decode skips a container with a mismatching fixed-width element type one unchecked Seek per declared element: "+what+"; op: "+cs.op)
+				}
+			default:
+				c.rep.Hist("time", "over 10 ms")
+				c.rep.Disagree(report.Disagreement{Kind: "C13gen work not linear in the input", Input: input(), Impl: a,
+					Oracle: "decoding cost must be bounded by the input size: " + what})
+			}
+			continue
+		}
+		if !crashed {
+			c.rep.Hist("time", "≤ 10 ms or attributed to allocation")
 		}
 		if !crashed && alloc <= bound {
 			c.rep.Hist("allocation", "within bound")
@@ -189,7 +227,7 @@ func (c *checker) c13Run(b *built, cases []c13Case) {
 	}
 }
 
-var worstD3 uint64
+var worstD3, worstD25 uint64
 
 func log2(n int) int {
 	k := 0
@@ -201,9 +239,7 @@ func log2(n int) int {
 }
 
 func runC13gen(c *checker) {
-	if *replay != "" {
-		c.replayFile(*replay)
-		c.rep.Rule = "replay of " + *replay
+	if c.replayOrCorpus("C13gen") {
 		return
 	}
 	nProg := pick(3, 16)
@@ -228,6 +264,9 @@ func runC13gen(c *checker) {
 		}
 		// the classic witness: struct with a list<i64> field declaring 2^27 elements, 9 bytes
 		cases = append(cases, c13Case{op: "memdecode struct:containers.PrimitiveContainers 0f00020a0800000000", shape: "field list<i64> matching", match: true, count: 1 << 27})
+		// the witness of D25: plugin/api Function, field 3 (list<Argument>) sent as list<bool> with count 0x00ffffff
+		cases = append(cases, c13Case{op: "memdecode struct:api.Function 0f00030200ffffff00 seek", shape: "field list<struct> element-type-mismatch [seekable]", count: 0xffffff, seek: true},
+			c13Case{op: "memdecode struct:api.Function 0f00030200ffffff00", shape: "field list<struct> element-type-mismatch", count: 0xffffff})
 		logf("repository packages: %d messages", len(cases))
 		c.c13Run(rb, cases)
 	}
@@ -238,7 +277,7 @@ func runC13gen(c *checker) {
 		}
 		cases := c13Cases(b)
 		// a bounded sample per program keeps the quick tier short
-		max := pick(150, 2000)
+		max := pick(150, 1000)
 		if len(cases) > max {
 			r := c.r.Fork()
 			for i := len(cases) - 1; i > 0; i-- {
@@ -250,12 +289,28 @@ func runC13gen(c *checker) {
 		logf("%s: %d messages", b.id(), len(cases))
 		c.c13Run(b, cases)
 	}
-	c.rep.Rule = "per struct type of random compiled programs: messages ≤ 64 bytes = one field header + one container header whose count is 2^16, 2^20, 2^24 or 2^27 and no payload — for every container field with the declared element types (the pre-sizing site, D3), with a mismatching element type (skip loop), one level nested, for an unknown field id (list, map, binary), for string/binary fields (length), and for typedefs of containers at top level; generated Decode run in a child (GOMEMLIMIT 2 GiB, 16 GiB address space, 20 s); observable: runtime.MemStats.TotalAlloc delta of the call; bound 12 MiB + 64·|input|; non-trivial = every message; distinct by (program, op)"
+	c.rep.Rule = "per struct type of random compiled programs: messages ≤ 64 bytes = one field header + one container header whose count is 2^16, 2^20, 2^24 or 2^27 and no payload — for every container field with the declared element types (the pre-sizing site, D3), with a mismatching element type (skip loop), one level nested, for an unknown field id (list, map, binary), for string/binary fields (length), and for typedefs of containers at top level; every non-matching message also from a seekable reader (counts ≤ 2^24); generated Decode run in a child (GOMEMLIMIT 2 GiB, 16 GiB address space, 20 s); observables: runtime.MemStats.TotalAlloc delta of the call (bound 12 MiB + 64·|input|; above it with matching element types = D3) and wall time (best of two; bound 10 ms; above it on a seekable reader with a mismatching fixed-width element type = D25); non-trivial = every message; distinct by (program, op)"
 }
 
 func init() {
 	modes["C13gen"] = runC13gen
 	modeGens["C13gen"] = modeGen{mainConfig, optionSet}
+	replayHandlers["C13repo"] = func(c *checker, raw string) bool {
+		var rc replayCase
+		if json.Unmarshal([]byte(raw), &rc) != nil || len(rc.Ops) == 0 {
+			return false
+		}
+		rb := c.repoBuilt()
+		if rb == nil {
+			return true
+		}
+		var cases []c13Case
+		for _, o := range rc.Ops {
+			cases = append(cases, c13Case{op: o.Impl, shape: o.Kind, match: strings.Contains(o.Kind, "matching"), count: 0, seek: strings.HasSuffix(o.Impl, " seek")})
+		}
+		c.c13Run(rb, cases)
+		return true
+	}
 	replayHandlers["C13gen"] = func(c *checker, raw string) bool {
 		var rc replayCase
 		if json.Unmarshal([]byte(raw), &rc) != nil || len(rc.Ops) == 0 {
@@ -270,7 +325,7 @@ func init() {
 		}
 		var cases []c13Case
 		for _, o := range rc.Ops {
-			cases = append(cases, c13Case{op: o.Impl, shape: o.Kind, match: strings.Contains(o.Kind, "matching"), count: 0})
+			cases = append(cases, c13Case{op: o.Impl, shape: o.Kind, match: strings.Contains(o.Kind, "matching"), count: 0, seek: strings.HasSuffix(o.Impl, " seek")})
 		}
 		c.c13Run(b, cases)
 		return true
